@@ -14,6 +14,7 @@ TRAIT_SPECS = """
     spec fn cb_frame(pre: &Self, post: &Self) -> bool;
     spec fn cb_node_ready(pre: &Self, i: int, rule: Rule) -> bool;
     spec fn cb_span_ok(pre: &Self, span: Span) -> bool;
+    spec fn cb_committed(pre: &Self) -> bool;
     spec fn cb_tokens_ok(source: &'a str, toks: Seq<Token>, spans: Seq<Span>) -> bool;
 """
 
@@ -57,7 +58,7 @@ def apply(ix, ed, report):
             ed.insert(pos, "\n        ensures Self::cb_frame(old(self), final(self)),\n    ")
             n["delete_node"] += 1
         elif nm.startswith("action_"):
-            ed.insert(pos, "\n        ensures Self::cb_frame(old(self), final(self)),\n    ")
+            ed.insert(pos, "\n        requires Self::cb_committed(old(self)),   // [C08] no semantic action runs in an attempt that can still be undone\n        ensures Self::cb_frame(old(self), final(self)),\n    ")
             n["action"] += 1
         elif nm == "create_diagnostic":
             ed.insert(pos, "\n        requires Self::cb_span_ok(self, span),   // [C06,C12] every diagnostic span lies inside the source\n    ")
